@@ -359,7 +359,7 @@ class KeyPath(formatting.Formattable):
           v = src.sym_getattr(key)
         return self._query(key_pos + 1, v, use_inferred)
     elif hasattr(src, '__getitem__'):
-      if isinstance(key, int):
+      if isinstance(key, int) and not isinstance(src, dict):
         if not hasattr(src, '__len__'):
           raise KeyError(
               f'Cannot query index ({key}) on object ({src!r}): '
